@@ -88,6 +88,10 @@ func (a *Act) callCommon(st *State, c *ssa.CallCommon, args []Val, fnv *Val, pos
 			if fnv.S != "" && fnv.Sort == sInt {
 				a.vc.oblige(a.oblName("nopanic-nilfunc"), "nopanic", a.props, a.pos(pos), st.guard, not(eq(fnv.S, "0")), "call of nil function value "+shortName(fnv.Fn.Origin))
 			}
+			if isCancelFunc(c.Value.Type()) && a.eng.contracts[fnv.Fn.Origin] == nil {
+				a.vc.noteAssumed("context.CancelFunc call treated as effect-free")
+				return a.freshVal("cancel", resT)
+			}
 			if con := a.eng.contracts[fnv.Fn.Origin]; con != nil {
 				return a.applyContract(st, con, nil, sig, args, resT, pos, fnv.Fn.Origin)
 			}
@@ -95,11 +99,16 @@ func (a *Act) callCommon(st *State, c *ssa.CallCommon, args []Val, fnv *Val, pos
 		}
 	}
 	// cancelling a context has no effect on the memory the contracts talk about
-	if n, ok := types.Unalias(c.Value.Type()).(*types.Named); ok && n.Obj().Pkg() != nil && n.Obj().Pkg().Path() == "context" && n.Obj().Name() == "CancelFunc" {
+	if isCancelFunc(c.Value.Type()) {
 		a.vc.noteAssumed("context.CancelFunc call treated as effect-free")
 		return a.freshVal("cancel", resT)
 	}
 	return a.defaultCall(st, "dynamic call "+c.Value.Name(), nil, args, resT, pos)
+}
+
+func isCancelFunc(t types.Type) bool {
+	n, ok := types.Unalias(t).(*types.Named)
+	return ok && n.Obj().Pkg() != nil && n.Obj().Pkg().Path() == "context" && n.Obj().Name() == "CancelFunc"
 }
 
 func ifaceKey(t types.Type, method string) string {
@@ -447,6 +456,9 @@ func (a *Act) applyContract(st *State, con *Contract, f *ssa.Function, sig *type
 	}
 	if con.Trusted {
 		vc.noteAssumed("trusted contract: " + key)
+	}
+	for _, c := range con.Assumes {
+		vc.noteAssumed("callee " + shortName(key) + " is verified under an assumption not checked here: " + c.Label + ": " + c.Text)
 	}
 	a.bumpTop(st, res)
 	return res
@@ -878,6 +890,15 @@ func (fi *frameInfo) framed(k string) bool {
 
 // keptKey: k is a field heap of one of the named struct types (matched by the type's unqualified name).
 func keptKey(k string, types []string) bool {
+	if strings.HasPrefix(k, "G:") {
+		// "ghost <name>" entries keep a whole ghost heap
+		for _, t := range types {
+			if strings.HasPrefix(t, "ghost ") && strings.TrimSpace(t[6:]) == k[2:] {
+				return true
+			}
+		}
+		return false
+	}
 	if !strings.HasPrefix(k, "F:") {
 		return false
 	}
